@@ -42,6 +42,22 @@ func init() {
 			RealStub: realStubL1,
 		},
 		PropertyPlan{
+			ID: "C06", Level: "exploration",
+			Families: []FamilyPlan{{Name: "c06", Quick: 400, Thorough: 20000, Chunk: 20}},
+			Rule:     "each run = one generated curve graph (1-6 leaves: linear min<max, step sets of 1-8 points, PID curves with finite gains; 0-6 function curves of all six types over 1-8 members nested to depth 4; PID leaves have one parent) evaluated 20-60 times by a harness task in virtual time: sensor averages from the extreme set (negative, 0, boundaries +-1 m°, 1e300, fractional), PID sensors re-written, seeded virtual gaps 1 ms..5 s. Every reachable curve's value is compared with the reference semantics (exact at saturation, at step points and for aggregates; +-1 inside linear segments and for the PID term; first PID evaluation range-checked only). distinct = scenario hash; non-trivial = more than 5 evaluations judged",
+			Probes:   []string{"evaluations", "linear-saturated", "linear-interior", "steps-judged", "pid-judged", "pid-unsaturated", "function-judged", "function-depth>=3"},
+			Assume:   []string{"honest scope: for linear and function curves this is reference-model comparison hosted by the simulator; the simulator's clock matters for PID curves only", "coinciding evaluations are separated by >= 1 µs of virtual latency (dt=0 is not manufactured)"},
+			RealStub: realStubL1,
+		},
+		PropertyPlan{
+			ID: "C07", Level: "exploration",
+			Families: []FamilyPlan{{Name: "c07", Quick: 200, Thorough: 8000, Chunk: 10}, {Name: "c07loop", Quick: 120, Thorough: 4000, Chunk: 10}},
+			Rule:     "c07: generated monotone curve graphs (linear min<max, non-decreasing step sets, sum/minimum/maximum/average over such, nested) swept densely (1..100 m° grid; 1 m° sweeps over 12 °C windows, coarser sweeps from -40 to 130 °C; all sensors together or one alone) - the curve value must never drop. c07loop: closed loop with the direct algorithm over a slow temperature ramp (window 1, poll = tick), any fan limits and non-decreasing PWM maps (configured, swept, quantised): curve value and written PWM non-decreasing from cycle to cycle. distinct = scenario hash; non-trivial = curves swept / >20 ramp cycles",
+			Probes:   []string{"sweep-evaluations", "function-curves-swept", "ramp-cycles", "curve-steps-up"},
+			Assume:   []string{"honest scope: the curve part is a property of pure functions; the closed-loop part (rescale, nearest lookup, write skip) is where running the system matters", "twin-world comparison from the design was replaced by ramps (same relation, simpler)"},
+			RealStub: realStubL1,
+		},
+		PropertyPlan{
 			ID: "C08", Level: "exploration",
 			Families: []FamilyPlan{{Name: "c08", Quick: 320, Thorough: 12000, Chunk: 10}, {Name: "c08cmd", Quick: 32, Thorough: 800, Chunk: 2}},
 			Rule:     "each run = 1-3 sensors (hwmon/file; cmd in its own family) polled by the real sensor monitor for 40-400 polls with window size in {1,2,3,5,10,20,50}; reading programmes with plateaus and jumps incl. negative and int-extreme values; 70% of the runs inject 1-6 read faults (missing/empty/garbage/huge file, EIO, EACCES; command exit!=0, garbage, nan, inf, -inf, empty, timeout, killed) of length 1-20 polls. Oracle after every poll: hull of initial value and successful finite readings, geometric convergence on plateaus, smoothed value bit-identical after a failed or non-finite poll. distinct = scenario hash; non-trivial = more than 10 polls judged",
